@@ -45,10 +45,15 @@ Definition op_of (s : sx) : option op :=
   | SList [SInt 7%Z] => Some OLetShut
   | _ => None
   end.
+(* a nil Runnable has no body: the harness cannot see it start or end *)
+Definition invisible_of (s : sx) : bool :=
+  match s with SList [SInt o; _] => (Z.eqb o 3 || Z.eqb o 4)%bool | _ => false end.
+
 Definition kind_of (s : sx) : option (outcome * bool) :=
   match s with
   | SList [SInt o; SInt g] =>
-      Some ((if Z.eqb o 1 then OErr else if Z.eqb o 2 then OPanic else OOk), Z.eqb g 1)
+      (* 3 / 4: a nil / typed-nil Runnable: running it panics inside run() (recovered) *)
+      Some ((if Z.eqb o 1 then OErr else if (Z.eqb o 2 || Z.eqb o 3 || Z.eqb o 4)%bool then OPanic else OOk), Z.eqb g 1)
   | _ => None
   end.
 
@@ -170,8 +175,10 @@ Section Drive.
                            | _ => 1 end) (wins d)).
 
   (* compare one snapshot: exact order with a single worker, as sets otherwise *)
+  Variable invis : list nat.      (* nil Runnables: the harness cannot see them start or end *)
   Definition cmp_snap (n : nat) (m o : snap) : verdict :=
-    let norm := if Nat.eqb n 1 then (fun l => l) else sort in
+    let vis := filter (fun t => negb (mem t invis)) in
+    let norm := if Nat.eqb n 1 then vis else (fun l => sort (vis l)) in
     vjoin (check_that (nat_list_eqb (statuses m) (statuses o)) (VMismatch 1))
    (vjoin (check_that (nat_list_eqb (norm (started m)) (norm (started o))) (VMismatch 2))
    (vjoin (check_that (nat_list_eqb (norm (ended m)) (norm (ended o))) (VMismatch 3))
@@ -251,7 +258,7 @@ Fixpoint prop_walk (n n_order c : nat) (ops : list op) (obs : list snap) (prev :
         match acc, o, prev with
         | None, (OShutdown | OShutHeld), Some p =>
             (* the executor is running: some Execute has returned nil, or is past the state check *)
-            if mem 1 (statuses p) || mem 6 (statuses p) || mem 0 (statuses p)
+            if mem 1 (statuses p) || mem 6 (statuses p) || mem 0 (statuses p) || mem 10 (statuses p)
             then Some (ok_tasks p, nsh) else None
         | _, _, _ => acc
         end in
@@ -302,15 +309,25 @@ Definition check_conc (n : nat) (st_ early runs endedb : list nat)
 
 Definition check (c : sx) : verdict :=
   match c with
-  | SList [SList [SInt 0%Z; n; cp; SList ks; SList os]; SList obs] =>
-      match nat_of n, nat_of cp, map_opt kind_of ks, map_opt op_of os, map_opt snap_of obs with
+  | SList [SList [SInt 0%Z; n; cp; SList ks0; SList os]; SList obs] =>
+      match nat_of n, nat_of cp, map_opt kind_of ks0, map_opt op_of os, map_opt snap_of obs with
       | Some n, Some cp, Some ks, Some os, Some obs =>
           let n := Nat.max 1 n in
           (* a held Execute queues its task later than the calls made after it: the order of the
              ids is then not the submission order (the model comparison still checks the exact order) *)
           let n_order := if existsb (fun o => match o with OExecHeld => true | _ => false end) os then 0 else n in
-          vjoin (prop_walk n n_order cp os obs None None 0 false)
-                (compare ks n (mkdrv (init n cp) [] [] [] false) os obs)
+          (* nil Runnables are accepted and run (a recovered panic) but have no body the harness
+             could see: they are taken out of the accepted set of the property walk (status 10), and the
+             "blocked although the queue has room" rule, which counts queued tasks, is not applied *)
+          let invis := positions (fun x => x) 0 (map invisible_of ks0) in
+          let hide := fun b : snap =>
+            mksnap (settled b)
+                   (map (fun p => if mem (fst p) invis && Nat.eqb (snd p) 1 then 10 else snd p)
+                        (combine (seq 0 (length (statuses b))) (statuses b)))
+                   (started b) (ended b) (alive b) (shuts b) in
+          let cp' := match invis with [] => cp | _ => 0 end in
+          vjoin (prop_walk n n_order cp' os (map hide obs) None None 0 false)
+                (compare ks invis n (mkdrv (init n cp) [] [] [] false) os obs)
       | _, _, _, _, _ => VBad
       end
   | SList [SList (SInt 1%Z :: n :: _); SList [a; b; c'; d; SList rest]] =>
